@@ -86,6 +86,10 @@ func AddMetricsMetaEntry(entry *structs.MetricsMeta) error {
 	return nil
 }
 
+// An entry of the metrics meta file lists every tag key of its segment, so a line has no fixed bound; the default
+// bufio.Scanner limit (64 KiB) would silently end the scan at the first longer line.
+const maxMetricsMetaLineSize = 1 << 30
+
 func GetLocalMetricsMetaEntries() (map[string]*structs.MetricsMeta, error) {
 	return ReadMetricsMeta(localMetricsMeta)
 }
@@ -106,6 +110,7 @@ func ReadMetricsMeta(mmeta string) (map[string]*structs.MetricsMeta, error) {
 
 	retVal := make(map[string]*structs.MetricsMeta)
 	scanner := bufio.NewScanner(fd)
+	scanner.Buffer(make([]byte, 0, bufio.MaxScanTokenSize), maxMetricsMetaLineSize)
 	for scanner.Scan() {
 		rawbytes := scanner.Bytes()
 		var mMeta structs.MetricsMeta
@@ -191,6 +196,7 @@ func removeMetricsSegmentsByList(metricsMetaFile string, metricsSegmentsToDelete
 	defer fd.Close()
 
 	reader := bufio.NewScanner(fd)
+	reader.Buffer(make([]byte, 0, bufio.MaxScanTokenSize), maxMetricsMetaLineSize)
 	for reader.Scan() {
 		metricSegmentMeta := structs.MetricsMeta{}
 		err = json.Unmarshal(reader.Bytes(), &metricSegmentMeta)
